@@ -52,8 +52,10 @@ def Cases(tier):
     made = 0
     # operators that apply to few programs go first so that they are exercised
     ops.sort(key=lambda o: o[0] not in ('no_base', 'functor_bad_arg',
+                                        'functor_bad_arg_via_value',
                                         'inconsistent_distinct',
-                                        'drop_distinct'))
+                                        'drop_distinct',
+                                        'cmp_unbound_shared_name'))
     for name, fn in ops:
       if made >= per:
         break
@@ -62,7 +64,7 @@ def Cases(tier):
         continue
       made += 1
       query = list(base['query'])
-      if name == 'functor_bad_arg':
+      if name in ('functor_bad_arg', 'functor_bad_arg_via_value'):
         query.append('Mbad')
       cases.append({'id': '%s_%s' % (base['id'], name), 'prog': v,
                     'query': query, 'syntax': False,
